@@ -1,0 +1,99 @@
+//! Verification hooks.
+//!
+//! This module is only compiled with the `verif-hooks` feature. It lets an
+//! external model-checking harness take control of the scheduling decisions of
+//! the single-threaded executor: before the executor pops the next runnable
+//! task, the harness may (i) wake tasks it has parked itself and (ii) choose
+//! which of the runnable tasks is polled next.
+//!
+//! All hooks are no-ops unless a callback has been registered on the current
+//! thread.
+use std::cell::RefCell;
+
+use crate::executor::verif_runnable::Runnable;
+
+/// Callback choosing the next task among the identifiers of the runnable
+/// tasks. Index 0 designates the task the executor would have chosen on its
+/// own. The returned value must be a valid index in the slice.
+pub type Picker = Box<dyn FnMut(&[usize]) -> usize>;
+
+/// Callback invoked before each scheduling decision.
+pub type PrePick = Box<dyn FnMut()>;
+
+thread_local! {
+    static PICKER: RefCell<Option<Picker>> = const { RefCell::new(None) };
+    static PRE_PICK: RefCell<Option<PrePick>> = const { RefCell::new(None) };
+    static SPIN_HINT: RefCell<Option<fn()>> = const { RefCell::new(None) };
+}
+
+/// Registers (or removes) the task picker of the current thread and returns
+/// the previous one.
+pub fn set_picker(picker: Option<Picker>) -> Option<Picker> {
+    PICKER.with(|p| std::mem::replace(&mut *p.borrow_mut(), picker))
+}
+
+/// Registers (or removes) the pre-pick callback of the current thread and
+/// returns the previous one.
+pub fn set_pre_pick(pre_pick: Option<PrePick>) -> Option<PrePick> {
+    PRE_PICK.with(|p| std::mem::replace(&mut *p.borrow_mut(), pre_pick))
+}
+
+/// Registers (or removes) the spin-loop hint of the current thread.
+pub fn set_spin_hint(hint: Option<fn()>) {
+    SPIN_HINT.with(|h| *h.borrow_mut() = hint);
+}
+
+/// Called by the single-threaded executor before it inspects its run queue.
+///
+/// The run queue is not borrowed at that point, so the callback may wake
+/// tasks.
+pub(crate) fn st_pre_pick() {
+    // The callback is moved out of the cell while it runs so that a
+    // re-entrant call finds the cell empty rather than mutably borrowed.
+    let cb = PRE_PICK.with(|p| p.borrow_mut().take());
+    if let Some(mut cb) = cb {
+        cb();
+        PRE_PICK.with(|p| {
+            let mut p = p.borrow_mut();
+            if p.is_none() {
+                *p = Some(cb);
+            }
+        });
+    }
+}
+
+/// Called by the single-threaded executor right before it pops the last
+/// element of its run queue: moves the task selected by the picker, if any, to
+/// the last position.
+pub(crate) fn st_pick(queue: &mut Vec<Runnable>) {
+    let len = queue.len();
+    if len < 2 {
+        return;
+    }
+    let picker = PICKER.with(|p| p.borrow_mut().take());
+    if let Some(mut picker) = picker {
+        // Index 0 is the production choice, i.e. the top of the LIFO queue.
+        let ids: Vec<usize> = queue.iter().rev().map(|r| r.verif_id()).collect();
+        let choice = picker(&ids);
+        assert!(choice < len, "verif picker returned an out-of-range index");
+        if choice != 0 {
+            let task = queue.remove(len - 1 - choice);
+            queue.push(task);
+        }
+        PICKER.with(|p| {
+            let mut p = p.borrow_mut();
+            if p.is_none() {
+                *p = Some(picker);
+            }
+        });
+    }
+}
+
+/// Called inside spin loops so that a controlled scheduler can deschedule the
+/// spinning thread.
+pub(crate) fn spin_hint() {
+    let hint = SPIN_HINT.with(|h| *h.borrow());
+    if let Some(hint) = hint {
+        hint();
+    }
+}
